@@ -768,7 +768,7 @@ func (pc pathCtx) taintBelow(v ssa.Value, d int) string {
 
 func c20R4(p *core.Prog, r *core.Report) {
 	const rule = "C20.R4"
-	r.Rule(rule, "tar entry names of export/import are built from digests validated on every path to the call", 6)
+	r.Rule(rule, "tar entry names of export/import are built from digests validated on every path to the call", 3)
 	helper := p.Func(".", "tarOCILayoutDescPath")
 	if helper == nil {
 		r.MissingAnchor(rule, "regclient.tarOCILayoutDescPath")
@@ -790,8 +790,12 @@ func c20R4(p *core.Prog, r *core.Report) {
 		okV := false
 		why := "descriptor expression not recognised"
 		if ap != "" {
-			okV = validatedAP(st.From, ap+".Digest", st.Site)
-			why = "no Validate() on " + strings.TrimPrefix(ap, "var:") + ".Digest on every path to the call"
+			dap := ap + ".Digest"
+			if isDigestType(d.Type()) {
+				dap = ap // the helper takes the digest itself
+			}
+			okV = validatedAP(st.From, dap, st.Site)
+			why = "no Validate() on " + strings.TrimPrefix(dap, "var:") + " on every path to the call"
 		}
 		r.Check(okV, rule, fname, lab[fname].next("descriptor path"), p.Pos(st.Site.Pos()), map[bool]string{true: "digest validated on every path", false: why + ": a digest such as sha256:../../x from a manifest or archive index becomes an entry name outside blobs/"}[okV])
 	}
